@@ -380,6 +380,17 @@ func (c *Ctx) checkTraces(s *State, env *Env, fc *FuncContract, trace []Event, l
 		if tr.Loop != loop {
 			continue
 		}
+		// a rule about calls of a function whose contract found no function in this tree cannot be decided
+		detached := ""
+		for k, ofc := range c.eng.contracts.funcs {
+			if ofc.Detached && strings.Contains(tr.Src, shortName(k)) {
+				detached = k
+			}
+		}
+		if detached != "" {
+			c.unsupported(fmt.Sprintf("trace rule of %s refers to %s, whose contract no longer matches any function (in %q)", fc.Key, detached, tr.Src))
+			continue
+		}
 		label := tr.Name
 		if label == "" {
 			label = fmt.Sprint(i + 1)
@@ -453,6 +464,38 @@ func (c *Ctx) checkTraces(s *State, env *Env, fc *FuncContract, trace []Event, l
 		}
 		violated := false
 		detail := ""
+		if tr.Where != nil && (tr.Kind == "exactly" || tr.Kind == "atmost" || tr.Kind == "atleast") {
+			// symbolic count of the events whose operands satisfy the filter
+			cnt := IntLit(0)
+			bad := false
+			for _, ev := range trace {
+				if !matchEvent(tr.A, ev.Name) {
+					continue
+				}
+				ce := env.child()
+				c.bindEvent(ce, ev)
+				g := ce.evalBool(tr.Where)
+				for _, er := range ce.errs[len(env.errs):] {
+					c.unsupported(fmt.Sprintf("trace rule of %s: %s (in %q)", fc.Key, er, tr.Src))
+					bad = true
+				}
+				cnt = Add(cnt, Ite(g, IntLit(1), IntLit(0)))
+			}
+			if bad {
+				continue
+			}
+			var goal Term
+			switch tr.Kind {
+			case "exactly":
+				goal = Eq(cnt, IntLit(int64(tr.N)))
+			case "atmost":
+				goal = Le(cnt, IntLit(int64(tr.N)))
+			default:
+				goal = Ge(cnt, IntLit(int64(tr.N)))
+			}
+			c.oblige(s, "trace", name, Implies(cond, goal), "", "trace rule `"+tr.Src+"`", props)
+			continue
+		}
 		switch tr.Kind {
 		case "exactly", "atmost", "atleast":
 			n := 0
